@@ -226,7 +226,8 @@ def run_cli(chunk, ctx):
         old = sys.argv, os.getcwd()
         sys.argv = ["norminette"] + argv
         argparse.ArgumentParser.parse_args = parse
-        NF.open = fake_open
+        if not inline:
+            NF.open = fake_open      # (inline content must not be read from anywhere: no file is served in that mode)
         os.chdir(os.path.join(tmp, "empty") if inline else tmp)     # inline content must not depend on what the cwd holds
         try:
             with contextlib.redirect_stdout(out), contextlib.redirect_stderr(io.StringIO()):
